@@ -248,5 +248,485 @@ theorem lists_witnessed (ts : List Ty) (G : Ty → Bool × List Val) (T : Ty)
     obtain ⟨l, hl, he⟩ := hl
     exact List.any_eq_true.mpr ⟨l, filterMap_sub _ _ _ (mem_flatMap_grp ts G _ ht) l hl, he⟩
 
+/-! #### TypedDict members: what their observations say key by key -/
+
+theorem mem_column (s : String) (ds : List (List (Val × Val))) (x : Val) :
+    x ∈ column s ds ↔ ∃ d ∈ ds, ∃ kv ∈ d, kv.1 = Val.str s ∧ kv.2 = x := by
+  simp only [column, List.mem_flatMap, List.mem_map, List.mem_filter, Val.isStr_iff]
+  constructor
+  · rintro ⟨d, hd, kv, ⟨hkv, hs⟩, rfl⟩; exact ⟨d, hd, kv, hkv, hs, rfl⟩
+  · rintro ⟨d, hd, kv, hkv, hs, rfl⟩; exact ⟨d, hd, kv, ⟨hkv, hs⟩, rfl⟩
+
+theorem hasKey_iff (s : String) (d : List (Val × Val)) : hasKey s d = true ↔ ∃ kv ∈ d, kv.1 = Val.str s := by
+  simp [hasKey, Val.isStr_iff]
+
+theorem mem_dicts (g : List Val) (d : List (Val × Val)) : d ∈ g.filterMap Val.asDict? ↔ Val.dict d ∈ g := by
+  simp only [List.mem_filterMap]
+  constructor
+  · rintro ⟨v, hv, hd⟩
+    cases v <;> simp [Val.asDict?] at hd
+    subst hd; exact hv
+  · intro h; exact ⟨_, h, rfl⟩
+
+theorem djk_td (r o : List (String × Ty)) (h : (Ty.td r o).djk = true) : ∀ s, s ∈ r.map Prod.fst → s ∉ o.map Prod.fst := by
+  simp only [Ty.djk, Bool.and_eq_true, decide_eq_true_eq] at h
+  exact h.1.1
+
+/-- an entry of a dict that is a tight member of a TypedDict type: its key is a field, and its value a tight member of that
+    field's type -/
+theorem td_entry (r o : List (String × Ty)) (hdj : (Ty.td r o).djk = true) (d : List (Val × Val))
+    (hc : conforms sub false (.td r o) (.dict d) = true) : ∀ kv ∈ d, ∃ s, kv.1 = Val.str s ∧
+      ((∃ u, lookupF s r = some u ∧ conforms sub false u kv.2 = true) ∨
+       (lookupF s r = none ∧ ∃ u, lookupF s o = some u ∧ conforms sub false u kv.2 = true)) := by
+  intro kv hkv
+  simp only [conforms, Bool.and_eq_true, List.all_eq_true] at hc
+  have := hc.2 kv hkv
+  cases hk : kv.1 <;> simp only [hk, Bool.false_eq_true] at this
+  rename_i s
+  refine ⟨s, rfl, ?_⟩
+  simp only [Bool.or_eq_true, conformsField_lookup] at this
+  cases hl : lookupF s r with
+  | some u =>
+    left
+    rcases this with ⟨u', hu', hcu⟩ | ⟨u', hu', _⟩
+    · rw [hl] at hu'; cases hu'; exact ⟨u, rfl, hcu⟩
+    · exact absurd (lookupF_mem_vals s o u' hu').2 (djk_td r o hdj s (lookupF_mem_vals s r u hl).2)
+  | none =>
+    right
+    rcases this with ⟨u', hu', _⟩ | ⟨u', hu', hcu⟩
+    · rw [hl] at hu'; cases hu'
+    · exact ⟨rfl, u', hu', hcu⟩
+
+/-- the observations of a field of a TypedDict member: the values stored under that key -/
+theorem field_good (r o : List (String × Ty)) (p : Bool × List Val) (hg : Good sub k (.td r o) p) (s : String) (u : Ty)
+    (hf : lookupF s r = some u ∨ lookupF s o = some u) : Good sub k u (false, column s (p.2.filterMap Val.asDict?)) := by
+  obtain ⟨hw, hc, hwf, hn, hp, hk, hd⟩ := hg
+  simp only [witnessed, Bool.and_eq_true] at hw
+  have hmem : (s, u) ∈ r ∨ (s, u) ∈ o := hf.imp (lookupF_mem s r u) (lookupF_mem s o u)
+  refine ⟨?_, ?_, ?_, ?_, ?_, ?_, ?_⟩
+  · rcases hmem with h | h
+    · exact ((witnessedReq_iff _ r).mp hw.1.2 (s, u) h).2
+    · exact ((witnessedOpt_iff _ o).mp hw.2 (s, u) h).2.2
+  · intro x hx
+    obtain ⟨d, hdm, kv, hkv, hks, rfl⟩ := (mem_column s _ x).mp hx
+    obtain ⟨s', hs', hcase⟩ := td_entry sub r o hd d (hc _ ((mem_dicts p.2 d).mp hdm)) kv hkv
+    rw [hks] at hs'; cases hs'
+    rcases hcase with ⟨u', hu', hcu⟩ | ⟨hnone, u', hu', hcu⟩
+    · rcases hf with h | h
+      · rw [h] at hu'; cases hu'; exact hcu
+      · exact absurd (lookupF_mem_vals s o u h).2 (djk_td r o hd s (lookupF_mem_vals s r u' hu').2)
+    · rcases hf with h | h
+      · rw [h] at hnone; cases hnone
+      · rw [h] at hu'; cases hu'; exact hcu
+  · rcases hmem with h | h
+    · exact reqF_wf (.td r o) hwf (s, u) h
+    · exact optF_wf (.td r o) hwf (s, u) h
+  · rcases hmem with h | h
+    · exact reqF_normal (.td r o) hn (s, u) h
+    · exact optF_normal (.td r o) hn (s, u) h
+  · rcases hmem with h | h
+    · exact reqF_plain (.td r o) hp (s, u) h
+    · exact optF_plain (.td r o) hp (s, u) h
+  · rcases hmem with h | h
+    · exact reqF_tdOk k (.td r o) hk (s, u) h
+    · exact optF_tdOk k (.td r o) hk (s, u) h
+  · rcases hmem with h | h
+    · exact reqF_djk (.td r o) hd (s, u) h
+    · exact optF_djk (.td r o) hd (s, u) h
+
+/-- a dict observed for a TypedDict member that has the key `s`: `s` is one of the member's fields -/
+theorem key_is_field (r o : List (String × Ty)) (p : Bool × List Val) (hg : Good sub k (.td r o) p) (s : String)
+    (d : List (Val × Val)) (hd : d ∈ p.2.filterMap Val.asDict?) (hk : hasKey s d = true) :
+    (∃ u, lookupF s r = some u) ∨ (∃ u, lookupF s o = some u) := by
+  obtain ⟨kv, hkv, hks⟩ := (hasKey_iff s d).mp hk
+  obtain ⟨s', hs', hcase⟩ := td_entry sub r o hg.2.2.2.2.2.2 d (hg.2.1 _ ((mem_dicts p.2 d).mp hd)) kv hkv
+  rw [hks] at hs'; cases hs'
+  rcases hcase with ⟨u, hu, _⟩ | ⟨_, u, hu, _⟩
+  · exact Or.inl ⟨u, hu⟩
+  · exact Or.inr ⟨u, hu⟩
+
+/-! #### the TypedDict merge: observations per key -/
+
+/-- member `t` has the field `(s, u)` (required or optional) -/
+def fieldIs (s : String) (u : Ty) (t : Ty) : Bool :=
+  (match lookupF s t.reqF with | some u' => Ty.beq' u' u | none => false) ||
+  (match lookupF s t.optF with | some u' => Ty.beq' u' u | none => false)
+
+theorem fieldIs_iff (s : String) (u t : Ty) :
+    fieldIs s u t = true ↔ lookupF s t.reqF = some u ∨ lookupF s t.optF = some u := by
+  unfold fieldIs
+  constructor
+  · intro h
+    rcases Bool.or_eq_true_iff.mp h with h | h
+    · left; cases hl : lookupF s t.reqF with
+      | none => simp [hl] at h
+      | some u' => rw [hl] at h; rw [Ty.beq'_eq _ _ h]
+    · right; cases hl : lookupF s t.optF with
+      | none => simp [hl] at h
+      | some u' => rw [hl] at h; rw [Ty.beq'_eq _ _ h]
+  · rintro (h | h)
+    · simp [h, Ty.beq'_refl]
+    · simp [h, Ty.beq'_refl]
+
+/-- the observations for the field type `u` under key `s`, pooled over every member that has that field -/
+def fieldGrp (G : Ty → Bool × List Val) (ts : List Ty) (s : String) (u : Ty) : Bool × List Val :=
+  (false, (ts.filter (fieldIs s u)).flatMap (fun t => column s ((G t).2.filterMap Val.asDict?)))
+
+theorem isTD_iff (t : Ty) : t.isTD = true ↔ ∃ r o, t = .td r o := by
+  cases t <;> simp [Ty.isTD]
+
+theorem mem_vals_iff (s : String) (ts : List Ty) (u : Ty) :
+    u ∈ reqVals s ts ++ optVals s ts ↔ ∃ t ∈ ts, lookupF s t.reqF = some u ∨ lookupF s t.optF = some u := by
+  simp only [reqVals, optVals, List.mem_append, List.mem_filterMap]
+  constructor
+  · rintro (⟨t, ht, h⟩ | ⟨t, ht, h⟩)
+    · exact ⟨t, ht, Or.inl h⟩
+    · exact ⟨t, ht, Or.inr h⟩
+  · rintro ⟨t, ht, h | h⟩
+    · exact Or.inl ⟨t, ht, h⟩
+    · exact Or.inr ⟨t, ht, h⟩
+
+theorem any_const_false {α} (l : List α) : l.any (fun _ => false) = false := by
+  induction l <;> simp_all
+
+theorem fieldGrp_good (G : Ty → Bool × List Val) (ts : List Ty) (hall : ts.all Ty.isTD = true)
+    (hg : ∀ t ∈ ts, Good sub k t (G t)) (s : String) (u : Ty) (hu : u ∈ reqVals s ts ++ optVals s ts) :
+    Good sub k u (fieldGrp G ts s u) := by
+  obtain ⟨t1, ht1, hf1⟩ := (mem_vals_iff s ts u).mp hu
+  have hfld : ∀ t ∈ ts.filter (fieldIs s u), Good sub k u (false, column s ((G t).2.filterMap Val.asDict?)) := by
+    intro t ht
+    obtain ⟨htm, hfi⟩ := List.mem_filter.mp ht
+    obtain ⟨r, o, rfl⟩ := (isTD_iff t).mp (List.all_eq_true.mp hall t htm)
+    exact field_good sub k r o (G _) (hg _ htm) s u (by simpa [Ty.reqF, Ty.optF] using (fieldIs_iff s u _).mp hfi)
+  have hmem1 : t1 ∈ ts.filter (fieldIs s u) := List.mem_filter.mpr ⟨ht1, (fieldIs_iff s u t1).mpr hf1⟩
+  have h1 := hfld t1 hmem1
+  refine ⟨?_, ?_, h1.2.2.1, h1.2.2.2.1, h1.2.2.2.2.1, h1.2.2.2.2.2.1, h1.2.2.2.2.2.2⟩
+  · have := witnessed_pool_list u (fun _ : Ty => false) (fun t => column s ((G t).2.filterMap Val.asDict?))
+      (ts.filter (fieldIs s u)) (List.ne_nil_of_mem hmem1) (fun t ht => (hfld t ht).1)
+    simpa [fieldGrp, any_const_false] using this
+  · intro x hx
+    simp only [fieldGrp, List.mem_flatMap] at hx
+    obtain ⟨t, ht, hxt⟩ := hx
+    exact (hfld t ht).2.1 x hxt
+
+/-- the values under key `s` in all observed dicts are the pooled observations of the field types under `s` -/
+theorem columns_setEq (G : Ty → Bool × List Val) (ts : List Ty) (hall : ts.all Ty.isTD = true)
+    (hg : ∀ t ∈ ts, Good sub k t (G t)) (s : String) :
+    SetEq ((reqVals s ts ++ optVals s ts).flatMap (fun u => (fieldGrp G ts s u).2))
+      (column s ((ts.flatMap (fun t => (G t).2)).filterMap Val.asDict?)) := by
+  intro x
+  rw [mem_column]
+  simp only [List.mem_flatMap, fieldGrp, List.mem_filter, List.mem_filterMap]
+  constructor
+  · rintro ⟨u, _, t, ⟨ht, _⟩, hx⟩
+    obtain ⟨d, hd, kv, hkv, hks, hx⟩ := (mem_column s _ x).mp hx
+    obtain ⟨v, hv, hvd⟩ := List.mem_filterMap.mp hd
+    exact ⟨d, ⟨v, ⟨t, ht, hv⟩, hvd⟩, kv, hkv, hks, hx⟩
+  · rintro ⟨d, ⟨v, ⟨t, ht, hv⟩, hvd⟩, kv, hkv, hks, hx⟩
+    obtain ⟨r, o, rfl⟩ := (isTD_iff t).mp (List.all_eq_true.mp hall t ht)
+    have hdm : d ∈ (G (Ty.td r o)).2.filterMap Val.asDict? := List.mem_filterMap.mpr ⟨v, hv, hvd⟩
+    have hkey : hasKey s d = true := (hasKey_iff s d).mpr ⟨kv, hkv, hks⟩
+    have hfield := key_is_field sub k r o (G _) (hg _ ht) s d hdm hkey
+    obtain ⟨u, hu⟩ : ∃ u, lookupF s r = some u ∨ lookupF s o = some u := by
+      rcases hfield with ⟨u, h⟩ | ⟨u, h⟩
+      · exact ⟨u, Or.inl h⟩
+      · exact ⟨u, Or.inr h⟩
+    refine ⟨u, (mem_vals_iff s ts u).mpr ⟨_, ht, by simpa [Ty.reqF, Ty.optF] using hu⟩, Ty.td r o,
+      ⟨ht, (fieldIs_iff s u _).mpr (by simpa [Ty.reqF, Ty.optF] using hu)⟩, ?_⟩
+    exact (mem_column s _ x).mpr ⟨d, hdm, kv, hkv, hks, hx⟩
+
+theorem mem_all_dicts (G : Ty → Bool × List Val) (ts : List Ty) (d : List (Val × Val)) :
+    d ∈ (ts.flatMap (fun t => (G t).2)).filterMap Val.asDict? ↔ ∃ t ∈ ts, d ∈ (G t).2.filterMap Val.asDict? := by
+  simp only [List.mem_filterMap, List.mem_flatMap]
+  constructor
+  · rintro ⟨v, ⟨t, ht, hv⟩, hd⟩; exact ⟨t, ht, v, hv, hd⟩
+  · rintro ⟨t, ht, v, hv, hd⟩; exact ⟨v, ⟨t, ht, hv⟩, hd⟩
+
+/-- a TypedDict member has at least one observed dict -/
+theorem td_dicts_ne (r o : List (String × Ty)) (p : Bool × List Val) (hg : Good sub k (.td r o) p) :
+    ∃ d, d ∈ p.2.filterMap Val.asDict? := by
+  have hw := hg.1
+  simp only [witnessed, Bool.and_eq_true] at hw
+  cases h : p.2.filterMap Val.asDict? with
+  | nil => simp [h] at hw
+  | cons d _ => exact ⟨d, by simp⟩
+
+/-- the merged TypedDict is witnessed by all the observed dicts, given that each merged field type is witnessed by the
+    values stored under its key -/
+theorem td_small_witnessed (G : Ty → Bool × List Val) (t0 : Ty) (rest : List Ty) (hall : (t0 :: rest).all Ty.isTD = true)
+    (hg : ∀ t ∈ t0 :: rest, Good sub k t (G t)) (F : String → Ty)
+    (hF : ∀ s, (∃ t ∈ t0 :: rest, (∃ u, lookupF s t.reqF = some u) ∨ (∃ u, lookupF s t.optF = some u)) →
+      witnessed false (column s (((t0 :: rest).flatMap (fun t => (G t).2)).filterMap Val.asDict?)) (F s) = true) :
+    witnessed ((t0 :: rest).any (fun t => (G t).1)) ((t0 :: rest).flatMap (fun t => (G t).2))
+      (.td ((reqKeys (t0 :: rest)).map (fun s => (s, F s))) ((optKeys (t0 :: rest)).map (fun s => (s, F s)))) = true := by
+  have htd : ∀ t ∈ t0 :: rest, ∃ r o, t = .td r o := fun t ht => (isTD_iff t).mp (List.all_eq_true.mp hall t ht)
+  -- per member: what its own dicts say about a key
+  have hreqAll : ∀ t ∈ t0 :: rest, ∀ s, s ∈ t.reqKeySet → ∀ d ∈ (G t).2.filterMap Val.asDict?, hasKey s d = true := by
+    intro t ht s hs d hd
+    obtain ⟨r, o, rfl⟩ := htd t ht
+    have hw := (hg _ ht).1
+    simp only [witnessed, Bool.and_eq_true] at hw
+    obtain ⟨kt, hkt, hks⟩ := List.mem_map.mp (by simpa [Ty.reqKeySet, Ty.reqF] using hs : s ∈ r.map Prod.fst)
+    have := ((witnessedReq_iff _ r).mp hw.1.2 kt hkt).1
+    rw [hks] at this
+    exact List.all_eq_true.mp this d hd
+  have hoptBoth : ∀ t ∈ t0 :: rest, ∀ s, s ∈ t.optKeySet →
+      (∃ d ∈ (G t).2.filterMap Val.asDict?, hasKey s d = false) ∧ (∃ d ∈ (G t).2.filterMap Val.asDict?, hasKey s d = true) := by
+    intro t ht s hs
+    obtain ⟨r, o, rfl⟩ := htd t ht
+    have hw := (hg _ ht).1
+    simp only [witnessed, Bool.and_eq_true] at hw
+    obtain ⟨kt, hkt, hks⟩ := List.mem_map.mp (by simpa [Ty.optKeySet, Ty.optF] using hs : s ∈ o.map Prod.fst)
+    have := (witnessedOpt_iff _ o).mp hw.2 kt hkt
+    rw [hks] at this
+    obtain ⟨d1, hd1, h1⟩ := List.any_eq_true.mp this.1
+    obtain ⟨d2, hd2, h2⟩ := List.any_eq_true.mp this.2.1
+    exact ⟨⟨d1, hd1, by simpa using h1⟩, ⟨d2, hd2, h2⟩⟩
+  have hnoKey : ∀ t ∈ t0 :: rest, ∀ s, s ∉ t.reqKeySet → s ∉ t.optKeySet → ∀ d ∈ (G t).2.filterMap Val.asDict?, hasKey s d = false := by
+    intro t ht s h1 h2 d hd
+    obtain ⟨r, o, rfl⟩ := htd t ht
+    cases hk : hasKey s d with
+    | false => rfl
+    | true =>
+      exfalso
+      rcases key_is_field sub k r o (G _) (hg _ ht) s d hd hk with ⟨u, hu⟩ | ⟨u, hu⟩
+      · exact h1 (by simpa [Ty.reqKeySet, Ty.reqF] using (lookupF_mem_vals s r u hu).2)
+      · exact h2 (by simpa [Ty.optKeySet, Ty.optF] using (lookupF_mem_vals s o u hu).2)
+  have hne : ∀ t ∈ t0 :: rest, ∃ d, d ∈ (G t).2.filterMap Val.asDict? := by
+    intro t ht
+    obtain ⟨r, o, rfl⟩ := htd t ht
+    exact td_dicts_ne sub k r o (G _) (hg _ ht)
+  simp only [witnessed, Bool.and_eq_true]
+  refine ⟨⟨?_, ?_⟩, ?_⟩
+  · obtain ⟨d, hd⟩ := hne t0 (List.mem_cons_self ..)
+    have : d ∈ ((t0 :: rest).flatMap (fun t => (G t).2)).filterMap Val.asDict? :=
+      (mem_all_dicts G _ d).mpr ⟨t0, List.mem_cons_self .., hd⟩
+    cases h : ((t0 :: rest).flatMap (fun t => (G t).2)).filterMap Val.asDict? with
+    | nil => rw [h] at this; cases this
+    | cons _ _ => rfl
+  · rw [witnessedReq_iff]
+    intro kt hkt
+    obtain ⟨s, hs, rfl⟩ := List.mem_map.mp hkt
+    have hreq := (mem_reqKeys_iff s (t0 :: rest) (by simp)).mp hs
+    constructor
+    · rw [List.all_eq_true]
+      intro d hd
+      obtain ⟨t, ht, hdt⟩ := (mem_all_dicts G _ d).mp hd
+      exact hreqAll t ht s (hreq t ht) d hdt
+    · apply hF s
+      refine ⟨t0, List.mem_cons_self .., Or.inl ?_⟩
+      have := hreq t0 (List.mem_cons_self ..)
+      simp only [Ty.reqKeySet] at this
+      exact Option.isSome_iff_exists.mp ((lookupF_isSome_iff s t0.reqF).mpr this)
+  · rw [witnessedOpt_iff]
+    intro kt hkt
+    obtain ⟨s, hs, rfl⟩ := List.mem_map.mp hkt
+    have hopt := (mem_optKeys_iff s (t0 :: rest)).mp hs
+    have lift : ∀ t ∈ t0 :: rest, ∀ d ∈ (G t).2.filterMap Val.asDict?,
+        d ∈ ((t0 :: rest).flatMap (fun t => (G t).2)).filterMap Val.asDict? :=
+      fun t ht d hd => (mem_all_dicts G _ d).mpr ⟨t, ht, hd⟩
+    refine ⟨?_, ?_, ?_⟩
+    · -- some observed dict lacks the key
+      rcases hopt with ⟨_, hnall⟩ | ⟨t, ht, hto⟩
+      · obtain ⟨t, hnt⟩ := Classical.not_forall.mp hnall
+        obtain ⟨ht, hnr⟩ := Classical.not_imp.mp hnt
+        by_cases hto : s ∈ t.optKeySet
+        · obtain ⟨⟨d, hd, hk⟩, _⟩ := hoptBoth t ht s hto
+          exact List.any_eq_true.mpr ⟨d, lift t ht d hd, by simp [hk]⟩
+        · obtain ⟨d, hd⟩ := hne t ht
+          exact List.any_eq_true.mpr ⟨d, lift t ht d hd, by simp [hnoKey t ht s hnr hto d hd]⟩
+      · obtain ⟨⟨d, hd, hk⟩, _⟩ := hoptBoth t ht s hto
+        exact List.any_eq_true.mpr ⟨d, lift t ht d hd, by simp [hk]⟩
+    · -- some observed dict has the key
+      rcases hopt with ⟨⟨t, ht, htr⟩, _⟩ | ⟨t, ht, hto⟩
+      · obtain ⟨d, hd⟩ := hne t ht
+        exact List.any_eq_true.mpr ⟨d, lift t ht d hd, hreqAll t ht s htr d hd⟩
+      · obtain ⟨_, ⟨d, hd, hk⟩⟩ := hoptBoth t ht s hto
+        exact List.any_eq_true.mpr ⟨d, lift t ht d hd, hk⟩
+    · apply hF s
+      rcases hopt with ⟨⟨t, ht, htr⟩, _⟩ | ⟨t, ht, hto⟩
+      · refine ⟨t, ht, Or.inl ?_⟩
+        simp only [Ty.reqKeySet] at htr
+        exact Option.isSome_iff_exists.mp ((lookupF_isSome_iff s t.reqF).mpr htr)
+      · refine ⟨t, ht, Or.inr ?_⟩
+        simp only [Ty.optKeySet] at hto
+        exact Option.isSome_iff_exists.mp ((lookupF_isSome_iff s t.optF).mpr hto)
+
+/-! #### the oversize TypedDict merge (`Dict[str, merge of all value types]`) -/
+
+/-- the (member, key) pairs under which the field type `u` occurs -/
+def allPairs (ts : List Ty) (u : Ty) : List (Ty × String) :=
+  ts.flatMap (fun t => ((t.reqF ++ t.optF).filter (fun kt => Ty.beq' kt.2 u)).map (fun kt => (t, kt.1)))
+
+def valGrp (G : Ty → Bool × List Val) (ts : List Ty) (u : Ty) : Bool × List Val :=
+  (false, (allPairs ts u).flatMap (fun p => column p.2 ((G p.1).2.filterMap Val.asDict?)))
+
+theorem mem_allPairs (ts : List Ty) (u : Ty) (t : Ty) (s : String) :
+    (t, s) ∈ allPairs ts u ↔ t ∈ ts ∧ ((s, u) ∈ t.reqF ∨ (s, u) ∈ t.optF) := by
+  simp only [allPairs, List.mem_flatMap, List.mem_map, List.mem_filter, List.mem_append, Prod.mk.injEq]
+  constructor
+  · rintro ⟨t', ht', kt, ⟨hkt, hb⟩, rfl, rfl⟩
+    have := Ty.beq'_eq _ _ hb
+    obtain ⟨k', u'⟩ := kt
+    simp only at this; subst this
+    exact ⟨ht', hkt⟩
+  · rintro ⟨ht, hkt⟩
+    exact ⟨t, ht, (s, u), ⟨hkt, Ty.beq'_refl u⟩, rfl, rfl⟩
+
+theorem field_lookup (r o : List (String × Ty)) (hwf : (Ty.td r o).wf = true) (s : String) (u : Ty)
+    (h : (s, u) ∈ r ∨ (s, u) ∈ o) : lookupF s r = some u ∨ lookupF s o = some u := by
+  obtain ⟨_, _, hnr, hno⟩ := wf_td r o hwf
+  exact h.imp (lookupF_of_mem_nodup s r u hnr) (lookupF_of_mem_nodup s o u hno)
+
+theorem valGrp_good (G : Ty → Bool × List Val) (ts : List Ty) (hall : ts.all Ty.isTD = true)
+    (hg : ∀ t ∈ ts, Good sub k t (G t)) (u : Ty) (hu : u ∈ allVals ts) : Good sub k u (valGrp G ts u) := by
+  have hpair : ∀ p ∈ allPairs ts u, Good sub k u (false, column p.2 ((G p.1).2.filterMap Val.asDict?)) := by
+    rintro ⟨t, s⟩ hp
+    obtain ⟨ht, hf⟩ := (mem_allPairs ts u t s).mp hp
+    obtain ⟨r, o, rfl⟩ := (isTD_iff t).mp (List.all_eq_true.mp hall t ht)
+    exact field_good sub k r o (G _) (hg _ ht) s u (field_lookup r o (hg _ ht).2.2.1 s u (by simpa [Ty.reqF, Ty.optF] using hf))
+  obtain ⟨p1, hp1⟩ : ∃ p, p ∈ allPairs ts u := by
+    simp only [allVals, List.mem_flatMap, List.mem_map, List.mem_append] at hu
+    obtain ⟨t, ht, kt, hkt, rfl⟩ := hu
+    exact ⟨(t, kt.1), (mem_allPairs ts kt.2 t kt.1).mpr ⟨ht, hkt⟩⟩
+  have h1 := hpair p1 hp1
+  refine ⟨?_, ?_, h1.2.2.1, h1.2.2.2.1, h1.2.2.2.2.1, h1.2.2.2.2.2.1, h1.2.2.2.2.2.2⟩
+  · have := witnessed_pool_list u (fun _ : Ty × String => false) (fun p => column p.2 ((G p.1).2.filterMap Val.asDict?))
+      (allPairs ts u) (List.ne_nil_of_mem hp1) (fun p hp => (hpair p hp).1)
+    simpa [valGrp, any_const_false] using this
+  · intro x hx
+    simp only [valGrp, List.mem_flatMap] at hx
+    obtain ⟨p, hp, hxp⟩ := hx
+    exact (hpair p hp).2.1 x hxp
+
+/-- all the values of all observed dicts are the pooled observations of all the field types -/
+theorem values_setEq (G : Ty → Bool × List Val) (ts : List Ty) (hall : ts.all Ty.isTD = true)
+    (hg : ∀ t ∈ ts, Good sub k t (G t)) :
+    SetEq ((allVals ts).flatMap (fun u => (valGrp G ts u).2))
+      (((ts.flatMap (fun t => (G t).2)).filterMap Val.asDict?).flatten.map Prod.snd) := by
+  intro x
+  simp only [List.mem_flatMap, valGrp, List.mem_map, List.mem_flatten]
+  constructor
+  · rintro ⟨u, _, ⟨t, s⟩, hp, hx⟩
+    obtain ⟨ht, _⟩ := (mem_allPairs ts u t s).mp hp
+    obtain ⟨d, hd, kv, hkv, _, hx⟩ := (mem_column s _ x).mp hx
+    exact ⟨kv, ⟨d, (mem_all_dicts G ts d).mpr ⟨t, ht, hd⟩, hkv⟩, hx⟩
+  · rintro ⟨kv, ⟨d, hd, hkv⟩, rfl⟩
+    obtain ⟨t, ht, hdt⟩ := (mem_all_dicts G ts d).mp hd
+    obtain ⟨r, o, rfl⟩ := (isTD_iff t).mp (List.all_eq_true.mp hall t ht)
+    obtain ⟨s, hs, hcase⟩ := td_entry sub r o (hg _ ht).2.2.2.2.2.2 d ((hg _ ht).2.1 _ ((mem_dicts _ d).mp hdt)) kv hkv
+    obtain ⟨u, hu⟩ : ∃ u, (s, u) ∈ r ∨ (s, u) ∈ o := by
+      rcases hcase with ⟨u, hu, _⟩ | ⟨_, u, hu, _⟩
+      · exact ⟨u, Or.inl (lookupF_mem s r u hu)⟩
+      · exact ⟨u, Or.inr (lookupF_mem s o u hu)⟩
+    have hua : u ∈ allVals ts := by
+      simp only [allVals, List.mem_flatMap, List.mem_map, List.mem_append]
+      exact ⟨_, ht, (s, u), by simpa [Ty.reqF, Ty.optF] using hu, rfl⟩
+    refine ⟨u, hua, (Ty.td r o, s), (mem_allPairs ts u _ s).mpr ⟨ht, by simpa [Ty.reqF, Ty.optF] using hu⟩, ?_⟩
+    exact (mem_column s _ kv.2).mpr ⟨d, hdt, kv, hkv, hs, rfl⟩
+
+theorem td_big_witnessed (G : Ty → Bool × List Val) (t0 : Ty) (rest : List Ty) (hall : (t0 :: rest).all Ty.isTD = true)
+    (hg : ∀ t ∈ t0 :: rest, Good sub k t (G t)) (T : Ty)
+    (hT : witnessed false ((((t0 :: rest).flatMap (fun t => (G t).2)).filterMap Val.asDict?).flatten.map Prod.snd) T = true) :
+    witnessed ((t0 :: rest).any (fun t => (G t).1)) ((t0 :: rest).flatMap (fun t => (G t).2)) (.dict (.cls strC) T) = true := by
+  obtain ⟨r, o, h0⟩ := (isTD_iff t0).mp (List.all_eq_true.mp hall t0 (List.mem_cons_self ..))
+  have hg0 := hg t0 (List.mem_cons_self ..)
+  rw [h0] at hg0
+  have lift : ∀ d ∈ (G t0).2.filterMap Val.asDict?, d ∈ ((t0 :: rest).flatMap (fun t => (G t).2)).filterMap Val.asDict? :=
+    fun d hd => (mem_all_dicts G _ d).mpr ⟨t0, List.mem_cons_self .., hd⟩
+  obtain ⟨d0, hd0⟩ := td_dicts_ne sub k r o (G t0) (by rw [h0]; exact hg0)
+  have hw0 := hg0.1
+  simp only [witnessed, Bool.and_eq_true] at hw0
+  -- some observed dict has a string key
+  have hsome : ∃ s, (((t0 :: rest).flatMap (fun t => (G t).2)).filterMap Val.asDict?).any (hasKey s) = true := by
+    have hk0 := hg0.2.2.2.2.2.1
+    simp only [Ty.tdOk, Bool.and_eq_true, decide_eq_true_eq] at hk0
+    cases r with
+    | cons kt r' =>
+      have := ((witnessedReq_iff _ (kt :: r')).mp hw0.1.2 kt (List.mem_cons_self ..)).1
+      rw [h0] at hd0
+      exact ⟨kt.1, List.any_eq_true.mpr ⟨d0, lift d0 (by rw [h0]; exact hd0), List.all_eq_true.mp this d0 hd0⟩⟩
+    | nil =>
+      cases o with
+      | nil => simp at hk0
+      | cons kt o' =>
+        have := ((witnessedOpt_iff _ (kt :: o')).mp hw0.2 kt (List.mem_cons_self ..)).2.1
+        obtain ⟨d, hd, hk⟩ := List.any_eq_true.mp this
+        exact ⟨kt.1, List.any_eq_true.mpr ⟨d, lift d (by rw [h0]; exact hd), hk⟩⟩
+  obtain ⟨s, hs⟩ := hsome
+  simp only [witnessed, Bool.and_eq_true]
+  refine ⟨⟨?_, str_key_of_hasKey s _ hs⟩, witnessed_flag T false _ _ (fun h => by cases h) hT⟩
+  have := lift d0 hd0
+  cases h : ((t0 :: rest).flatMap (fun t => (G t).2)).filterMap Val.asDict? with
+  | nil => rw [h] at this; cases this
+  | cons _ _ => rfl
+
+/-! #### the merge theorem -/
+
+/-- `shrink_types` of types that each come with observations witnessing them is witnessed by all the observations together -/
+theorem shrink_witnessed_groups (ts : List Ty) : ts ≠ [] → ∀ G : Ty → Bool × List Val, (∀ t ∈ ts, Good sub k t (G t)) →
+    witnessed (ts.any (fun t => (G t).1)) (ts.flatMap (fun t => (G t).2)) (shrink k ts) = true := by
+  fun_induction shrink k ts with
+  | case1 => intro h; exact absurd rfl h
+  | case2 t0 rest hall hbig ih =>
+    intro _ G hg
+    apply td_big_witnessed sub k G t0 rest hall hg
+    have hne : allVals (t0 :: rest) ≠ [] := by
+      obtain ⟨r, o, h0⟩ := (isTD_iff t0).mp (List.all_eq_true.mp hall t0 (List.mem_cons_self ..))
+      have hk0 := (hg t0 (List.mem_cons_self ..)).2.2.2.2.2.1
+      rw [h0] at hk0
+      simp only [Ty.tdOk, Bool.and_eq_true, decide_eq_true_eq] at hk0
+      intro hnil
+      have : ∀ u, u ∉ allVals (t0 :: rest) := by rw [hnil]; simp
+      rw [h0] at this
+      cases r with
+      | cons kt r' => exact this kt.2 (by simp [allVals, Ty.reqF])
+      | nil =>
+        cases o with
+        | nil => simp at hk0
+        | cons kt o' => exact this kt.2 (by simp [allVals, Ty.reqF, Ty.optF])
+    have h1 := ih hne (valGrp G (t0 :: rest)) (fun u hu => valGrp_good sub k G _ hall hg u hu)
+    have hflag : (allVals (t0 :: rest)).any (fun u => (valGrp G (t0 :: rest) u).1) = false := any_const_false _
+    rw [hflag, witnessed_setEq _ _ _ _ (values_setEq sub k G _ hall hg)] at h1
+    exact h1
+  | case3 t0 rest hall hsmall ih1 =>
+    intro _ G hg
+    apply td_small_witnessed sub k G t0 rest hall hg
+      (fun s => shrink k (reqVals s (t0 :: rest) ++ optVals s (t0 :: rest)))
+    intro s hs
+    have hne : reqVals s (t0 :: rest) ++ optVals s (t0 :: rest) ≠ [] := by
+      obtain ⟨t, ht, hl⟩ := hs
+      obtain ⟨u, hu⟩ : ∃ u, lookupF s t.reqF = some u ∨ lookupF s t.optF = some u := by
+        rcases hl with ⟨u, h⟩ | ⟨u, h⟩
+        · exact ⟨u, Or.inl h⟩
+        · exact ⟨u, Or.inr h⟩
+      exact List.ne_nil_of_mem ((mem_vals_iff s _ u).mpr ⟨t, ht, hu⟩)
+    have h1 := ih1 s hne (fieldGrp G (t0 :: rest) s) (fun u hu => fieldGrp_good sub k G _ hall hg s u hu)
+    have hflag : (reqVals s (t0 :: rest) ++ optVals s (t0 :: rest)).any (fun u => (fieldGrp G (t0 :: rest) s u).1) = false :=
+      any_const_false _
+    rw [hflag, witnessed_setEq _ _ _ _ (columns_setEq sub k G _ hall hg s)] at h1
+    exact h1
+  | case4 t0 rest hnall heq =>
+    intro _ G hg
+    exact alleq_witnessed sub k t0 rest G hg heq
+  | case5 t0 rest hnall hneq hlist ih =>
+    intro _ G hg
+    have hl : ∀ t ∈ t0 :: rest, ∃ a, t = .list a := by
+      intro t ht
+      have := List.all_eq_true.mp hlist t ht
+      cases t <;> simp_all [Ty.isList]
+    have hgl : ∀ a ∈ (t0 :: rest).map Ty.listArg, Good sub k a (listGrp G a) := by
+      intro a ha
+      obtain ⟨t, ht, rfl⟩ := List.mem_map.mp ha
+      obtain ⟨a', rfl⟩ := hl t ht
+      exact listGrp_good sub k G a' (hg _ ht)
+    have h1 := ih (by simp) (listGrp G) hgl
+    obtain ⟨a0, ha0⟩ := hl t0 (List.mem_cons_self ..)
+    exact lists_witnessed (t0 :: rest) G _ hl t0 (List.mem_cons_self ..)
+      ⟨a0, ha0, by have := (hg t0 (List.mem_cons_self ..)).1; rw [ha0] at this ⊢; exact this⟩ h1
+  | case6 t0 rest hnall hneq hnlist =>
+    intro hne G hg
+    exact union_witnessed sub k (t0 :: rest) hne G hg
+
 end
 end MT
